@@ -16,9 +16,21 @@ Spec on impl (C), evaluated by the Lean driver on the implementation's own behav
 Stdlib leaves (base64, parse_http_list/parse_keqv_list, urljoin, sha1, uuid4) are computed with the
 real functions here and handed to the model; md5 is the Lean instantiation, validated against
 hashlib by the `md5` cases.
+
+The leaves inside the model (CV.Model.AuthLeaves: a2b_base64, UTF-8 decode/encode, str.strip,
+parse_http_list, parse_keqv_list, the RFC 4648 encoder) are compared with the real stdlib functions
+  leaf     on a directed stream per leaf + random inputs, and on the parameter part of every
+           Authorization value an `auth` case carries (its base64 / kv outcome, the utf-8 outcome of the
+           decoded user / password bytes);
+and every `auth` / `authseq` call is ALSO evaluated end to end under `concreteLeaves` (`authc` / `specc`:
+the driver is handed the header text only, no leaf tables) and compared with the real front ends.
+`client` auth cases carry a header produced by the Lean client models (`basicHeader`, `Client.header`):
+it must equal the header an independent Python RFC 2617 client builds, and the real `check_auth` must
+decide it as the concrete theorems of CV/Props/C20.lean say (accepted iff the table has the password).
 """
 import ast
 import base64
+import binascii
 import hashlib
 import inspect
 import itertools
@@ -180,12 +192,93 @@ def classify_bypass(c):
     return 'bypass(other)'
 
 
+def kv_canon(tok):
+    """kv token with the items sorted (dict order is not compared)"""
+    if tok in ('!', '=', '~'):
+        return tok
+    return ';'.join(sorted(tok.split(';')))
+
+
+def header_leaf_ops(hdr):
+    """leaf ops on the parameter part of a header -> (ops, expected answers, labels)"""
+    if hdr is None or ' ' not in hdr:
+        return [], [], []
+    params = hdr.split(' ', 1)[1]
+    btok, ktok, _kv = leaves_of(hdr)
+    ops = [f'leafb64 {sx(params)}', f'kv {sx(params)}']
+    want = [btok, kv_canon(ktok)]
+    labels = ['hdr.b64', 'hdr.kv']
+    if btok != '!':
+        raw = base64.decodebytes(params.encode('utf-8'))
+        for piece in raw.split(b':', 1):
+            ops.append(f'utf8dec {hx(piece)}')
+            want.append(py_utf8dec(piece))
+            labels.append('hdr.utf8')
+    return ops, want, labels
+
+
+def py_utf8dec(b):
+    try:
+        return ' '.join(['cp'] + [str(ord(ch)) for ch in b.decode('utf-8')])
+    except UnicodeDecodeError:
+        return '!'
+
+
+def esc_q(v):
+    return v.replace('\\', '\\\\').replace('"', '\\"')
+
+
+def py_client_header(cl):
+    """the header an RFC 2617 client sends, written here independently of the Lean client model"""
+    if cl['scheme'] == 'basic':
+        return 'Basic ' + base64.b64encode((cl['user'] + ':' + cl['pass']).encode('utf-8')).decode('ascii')
+    f = {'username': cl['user'], 'realm': cl['realm'], 'nonce': cl['nonce'], 'uri': cl['uri']}
+    if cl['alg'] is not None:
+        f['algorithm'] = 'MD5-sess' if cl['alg'] else 'MD5'
+    if cl['qop'] is not None:
+        f['qop'] = 'auth'
+        f['nc'], f['cnonce'] = cl['qop']
+    resp = rfc_digest(cl['user'], cl['realm'], cl['password'], cl['method'], f)
+    parts = [f'username="{esc_q(cl["user"])}"', f'realm="{esc_q(cl["realm"])}"', f'nonce="{esc_q(cl["nonce"])}"',
+             f'uri="{esc_q(cl["uri"])}"']
+    if cl['alg'] is not None:
+        parts.append('algorithm=' + f['algorithm'])
+    parts.append(f'response="{resp}"')
+    if cl['qop'] is not None:
+        parts += ['qop=auth', 'nc=' + cl['qop'][0], f'cnonce="{esc_q(cl["qop"][1])}"']
+    return 'Digest ' + ', '.join(parts)
+
+
+def client_op(cl):
+    if cl['scheme'] == 'basic':
+        return f"basichdr {sx(cl['user'])} {sx(cl['pass'])}"
+    alg = '~' if cl['alg'] is None else ('1' if cl['alg'] else '0')
+    qop = '~' if cl['qop'] is None else f"{sx(cl['qop'][0])},{sx(cl['qop'][1])}"
+    return (f"clienthdr {sx(cl['user'])} {sx(cl['realm'])} {sx(cl['nonce'])} {sx(cl['uri'])} {alg} {qop} "
+            f"{sx(cl['password'])} {sx(cl['method'])}")
+
+
+def client_expect(c):
+    """what C20.basic_concrete / C20.digest_concrete say about `check_auth` on this case; None = outside
+    their hypotheses"""
+    cl = c['client']
+    table = dict((u, p) for u, p in c['users'])
+    if cl['scheme'] == 'basic':
+        if ':' in cl['user'] or c['enc'] == 'dflt':
+            return None
+        return table.get(cl['user']) == enc_store(c['enc'], cl['user'], cl['pass'])
+    if cl['method'] != c['method']:
+        return None
+    return table.get(cl['user']) == cl['password'] and cl['realm'] == c['realm']
+
+
 def eval_auth(ctx, cases):
-    ops, impl = [], []
+    ops, impl, extra = [], [], []
     for c in cases:
         btok, ktok, _kv = leaves_of(c['hdr'])
         users = ' '.join(f'{sx(u)},{sx(p)}' for u, p in c['users'])
         base = f"{sx(c['realm'])} {sx(c['method'])} {opt(c['hdr'])} {btok} {ktok}"
+        cbase = f"{sx(c['realm'])} {sx(c['method'])} {opt(c['hdr'])}"
         o = [f"auth current {c['enc']} {base} {users}".rstrip()]
         rec = {}
         for front in ('check', 'basic', 'digest'):
@@ -193,32 +286,71 @@ def eval_auth(ctx, cases):
             rec[front] = (granted, login, obs, exc)
             enc = 'dflt' if front == 'digest' else c['enc']
             o.append(f"spec {enc} {base} {1 if granted else 0} {opt(login)} {users}".rstrip())
+        # the same under concreteLeaves: header text only
+        o.append(f"authc current {c['enc']} {cbase} {users}".rstrip())
+        for front in ('check', 'basic', 'digest'):
+            granted, login, _obs, _exc = rec[front]
+            enc = 'dflt' if front == 'digest' else c['enc']
+            o.append(f"specc {enc} {cbase} {1 if granted else 0} {opt(login)} {users}".rstrip())
+        lops, lwant, llabels = header_leaf_ops(c['hdr'])
+        o += lops
+        if 'client' in c:
+            o.append(client_op(c['client']))
         ops.append(o)
         impl.append(rec)
+        extra.append((lwant, llabels))
     answers = ctx.driver.batch('auth', ops)
-    for c, rec, ans in zip(cases, impl, answers):
+    for c, rec, ans, (lwant, llabels) in zip(cases, impl, answers, extra):
         ok = True
-        if ans[0] == 'bad-op':
-            raise RuntimeError(f'driver rejected auth op for case {c!r}')
+        if any(a == 'bad-op' for a in ans):
+            raise RuntimeError(f'driver rejected an auth op for case {c!r}: {ans!r}')
         model = dict(p.split('=', 1) for p in ans[0].split(' '))
+        cmodel = dict(p.split('=', 1) for p in ans[4].split(' '))
         for i, front in enumerate(('check', 'basic', 'digest')):
             granted, login, obs, exc = rec[front]
             if model[front] != obs:
                 ok = False
                 ctx.disagree(c, {'where': f'auth.{front}', 'impl': obs + (f' ({exc})' if exc else ''), 'model': model[front]})
-            a = ans[1 + i]
-            if a == 'bad-op':
-                raise RuntimeError(f'driver rejected spec op for case {c!r}')
-            if a == 'fail bypass':
-                ctx.violate(c, classify_bypass(c),
-                            f'{front}{"_auth" if front != "check" else "_auth (check_auth)"} granted access to Authorization={c["hdr"]!r} '
-                            f'although no entry of users={c["users"]!r} (realm {c["realm"]!r}) verifies it')
-            elif a.startswith('fail'):
-                ctx.violate(c, 'valid-credentials-refused',
-                            f'{front}: well-formed credentials {c["hdr"]!r} verifying against users={c["users"]!r} '
-                            f'were not accepted (observed {obs})')
+            if cmodel[front] != obs:
+                ok = False
+                ctx.disagree(c, {'where': f'auth.concrete.{front}', 'impl': obs + (f' ({exc})' if exc else ''),
+                                 'model': cmodel[front], 'note': 'model under concreteLeaves (header text only)'})
+            for a, how in ((ans[1 + i], 'leaf tables'), (ans[5 + i], 'concreteLeaves')):
+                if a == 'fail bypass':
+                    ctx.violate(c, classify_bypass(c),
+                                f'{front}{"_auth" if front != "check" else "_auth (check_auth)"} granted access to Authorization={c["hdr"]!r} '
+                                f'although no entry of users={c["users"]!r} (realm {c["realm"]!r}) verifies it')
+                    break
+                if a.startswith('fail'):
+                    ctx.violate(c, 'valid-credentials-refused',
+                                f'{front}: well-formed credentials {c["hdr"]!r} verifying against users={c["users"]!r} '
+                                f'were not accepted (observed {obs})')
+                    break
             if exc:
                 ctx.count('auth_exception', exc)
+        # the leaves on this header's parameter part
+        for a, w, lab in zip(ans[8:8 + len(lwant)], lwant, llabels):
+            got = kv_canon(a) if lab == 'hdr.kv' else a
+            ctx.count('leaf_on_header', f"{lab}:{'raises' if w == '!' else 'value'}")
+            if got != w:
+                ok = False
+                ctx.disagree(c, {'where': f'leaf.{lab}', 'impl': w, 'model': got})
+        if 'client' in c:
+            cl = c['client']
+            lean_hdr = ans[-1] if ans[-1] == 'notok' else ('' if ans[-1] == '-' else bytes.fromhex(ans[-1]).decode('utf-8'))
+            py_hdr = py_client_header(cl)
+            if lean_hdr != py_hdr or c['hdr'] != py_hdr:
+                ok = False
+                ctx.disagree(c, {'where': f"client.{cl['scheme']}.header", 'impl': py_hdr, 'model': lean_hdr, 'case-hdr': c['hdr']})
+            exp = client_expect(c)
+            ctx.count('client_expectation', f"{cl['scheme']}:" + ('outside-hypotheses' if exp is None else ('accept' if exp else 'refuse')))
+            if exp is not None:
+                want = 'ok:' + sx(cl['user']) if exp else None
+                obs = rec['check'][2]
+                if (obs == want) != exp or (not exp and obs.startswith('ok:')):
+                    ok = False
+                    ctx.disagree(c, {'where': f"client.{cl['scheme']}.concrete-theorem", 'impl': obs,
+                                     'model': want or 'not ok', 'note': 'prediction of C20.basic_concrete / digest_concrete'})
         ctx.count('auth_outcome', rec['check'][2].split(':')[0])
         ctx.count('auth_tag', c.get('tag', '?'))
         ctx.count('auth_enc', c['enc'])
@@ -539,6 +671,9 @@ def eval_authseq(ctx, cases):
             senc = 'dflt' if call['front'] == 'digest' else call['enc']
             o.append(f"auth current {call['enc']} {base} {users}".rstrip())
             o.append(f"spec {senc} {base} {1 if granted else 0} {opt(login)} {users}".rstrip())
+            cbase = f"{sx(call['realm'])} {sx(c['method'])} {opt(c['hdr'])}"
+            o.append(f"authc current {call['enc']} {cbase} {users}".rstrip())
+            o.append(f"specc {senc} {cbase} {1 if granted else 0} {opt(login)} {users}".rstrip())
         ops.append(o)
         impl.append(rec)
     answers = ctx.driver.batch('auth', ops)
@@ -549,13 +684,20 @@ def eval_authseq(ctx, cases):
         letters = []
         reported = False
         for k, (call, (granted, login, obs, exc)) in enumerate(zip(c['calls'], rec)):
-            model = dict(p.split('=', 1) for p in ans[2 * k].split(' '))[call['front']]
+            model = dict(p.split('=', 1) for p in ans[4 * k].split(' '))[call['front']]
+            cmodel = dict(p.split('=', 1) for p in ans[4 * k + 2].split(' '))[call['front']]
             letters.append(seq_letter(model))
             if model != obs:
                 ok = False
                 ctx.disagree(c, {'where': f"authseq.call{k}.{call['front']}", 'impl': obs + (f' ({exc})' if exc else ''),
                                  'model': model, 'note': 'model applied to this call alone'})
-            a = ans[2 * k + 1]
+            if cmodel != obs:
+                ok = False
+                ctx.disagree(c, {'where': f"authseq.concrete.call{k}.{call['front']}", 'impl': obs + (f' ({exc})' if exc else ''),
+                                 'model': cmodel, 'note': 'model under concreteLeaves applied to this call alone'})
+            a = ans[4 * k + 1]
+            if not a.startswith('fail') and ans[4 * k + 3].startswith('fail'):
+                a = ans[4 * k + 3]
             if exc:
                 ctx.count('auth_exception', exc)
             if not a.startswith('fail') or reported:
@@ -702,6 +844,264 @@ def authseq_random(ctx):
 
 def authseq_cases(ctx):
     return authseq_directed() + authseq_random(ctx)
+
+
+# ---------------------------------------------------------------------------------------
+# headers made by the Lean client models (concrete soundness / completeness on the real code)
+# ---------------------------------------------------------------------------------------
+
+CL_USERS = ['alice', 'bob', 'ü', 'a b', 'x', '', 'al"ice', 'back\\slash', 'co,mma', 'Ωmega ', 'a:b', '\U0001f600']
+CL_PWS = ['secret', 'pä', 'a:b', '', 'p w', ':', 'q"uote', '\\', 'pw,=', '€\U00010000', 'None']
+CL_TOK = ['00000001', '1', 'ff', 'a=b', 'x\\y']
+
+
+def client_cases(ctx):
+    rng = ctx.rng
+    cases = []
+    for _ in range(400 * ctx.scale):
+        enc = rng.choice(ENCS)
+        realm = rng.choice(REALMS + ['r"q', 'a, b', 'ü\\'])
+        method = rng.choice(METHODS)
+        n = rng.choice([0, 1, 2, 3])
+        names = rng.sample(CL_USERS, n)
+        clear = {u: rng.choice(CL_PWS) for u in names}
+        if rng.random() < 0.5:
+            user = rng.choice(names) if names else rng.choice(CL_USERS)
+        else:
+            user = rng.choice(CL_USERS)
+        right = user in clear and rng.random() < 0.6
+        pw = clear[user] if right else rng.choice(CL_PWS + ['wrong'])
+        if rng.random() < 0.45:
+            users = [[u, enc_store(enc, u, p)] for u, p in clear.items()]
+            cl = {'scheme': 'basic', 'user': user, 'pass': pw}
+            tag = 'client-basic'
+        else:
+            enc = 'dflt' if rng.random() < 0.7 else enc
+            users = [[u, p] for u, p in clear.items()]
+            alg = rng.choice([None, None, False, True])
+            qop = rng.choice([None, 'q', 'q'])
+            if qop or alg:
+                qop = [rng.choice(CL_TOK), rng.choice(['xyz', '', 'c"n', 'c\\', 'ü,'])]
+            cl = {'scheme': 'digest', 'user': user, 'realm': realm if rng.random() < 0.85 else rng.choice(REALMS),
+                  'nonce': rng.choice(['abc123', '', 'n"', 'n,1', md5hex(str(rng.random()))]),
+                  'uri': rng.choice(['/', '/secret?a="b"', '/a,b', '']), 'alg': alg, 'qop': qop, 'password': pw,
+                  'method': method if rng.random() < 0.9 else rng.choice(METHODS)}
+            tag = 'client-digest'
+        cases.append({'kind': 'auth', 'enc': enc, 'realm': realm, 'method': method, 'users': users,
+                      'hdr': py_client_header(cl), 'tag': tag, 'form': 'dict', 'client': cl})
+    return cases
+
+
+# ---------------------------------------------------------------------------------------
+# the stdlib leaves inside the model, one by one
+# ---------------------------------------------------------------------------------------
+
+B64ALPHA = 'ABCDEFGHIJKLMNOPQRSTUVWXYZabcdefghijklmnopqrstuvwxyz0123456789+/'
+PY_SPACES = [n for n in range(0x110000) if chr(n).isspace()]
+
+
+def real_leaf(fn, arg):
+    """the real stdlib function -> canonical answer text"""
+    if fn == 'a2b':
+        try:
+            return hx(base64.decodebytes(arg))
+        except binascii.Error:
+            return '!'
+    if fn == 'leafb64':
+        try:
+            return hx(base64.decodebytes(arg.encode('utf-8')))
+        except binascii.Error:
+            return '!'
+    if fn == 'b64enc':
+        return hx(base64.b64encode(arg))
+    if fn == 'utf8dec':
+        return py_utf8dec(arg)
+    if fn == 'utf8enc':
+        return hx(''.join(map(chr, arg)).encode('utf-8'))
+    if fn == 'strip':
+        return sx(arg.strip())
+    if fn == 'httplist':
+        ps = parse_http_list(arg)
+        return ','.join(sx(x) for x in ps) if ps else '='
+    if fn == 'kv':
+        try:
+            kv = parse_keqv_list(parse_http_list(arg))
+        except (ValueError, IndexError):
+            return '!'
+        return kv_canon(';'.join(f'{sx(k)},{sx(v)}' for k, v in kv.items())) if kv else '='
+    raise ValueError(fn)
+
+
+def leaf_arg(c):
+    fn = c['fn']
+    if fn in ('a2b', 'b64enc', 'utf8dec'):
+        return b'' if c['arg'] == '-' else bytes.fromhex(c['arg'])
+    return c['arg']
+
+
+def leaf_op(c):
+    fn = c['fn']
+    if fn in ('a2b', 'b64enc', 'utf8dec'):
+        return f"{fn} {c['arg']}"
+    if fn == 'utf8enc':
+        return ('utf8enc ' + ' '.join(map(str, c['arg']))).rstrip()
+    return f"{fn} {sx(c['arg'])}"
+
+
+def leaf_class(c, want):
+    fn = c['fn']
+    arg = leaf_arg(c)
+    if fn == 'a2b':
+        data = sum(1 for b in arg if chr(b) in B64ALPHA)
+        return f"a2b:{'raises' if want == '!' else 'value'}:data%4={data % 4}:{'pad' if b'=' in arg else 'nopad'}:{'noise' if any(chr(b) not in B64ALPHA + '=' for b in arg) else 'clean'}"
+    if fn == 'utf8dec':
+        return f"utf8dec:{'raises' if want == '!' else 'value'}:{'ascii' if all(b < 128 for b in arg) else 'multibyte'}"
+    if fn == 'utf8enc':
+        return 'utf8enc:widths=' + ''.join(sorted({str(len(chr(n).encode('utf-8'))) for n in arg}))
+    if fn in ('kv', 'leafb64'):
+        return f"{fn}:{'raises' if want == '!' else ('empty' if want in ('=', '-') else 'value')}"
+    if fn == 'httplist':
+        return f"httplist:parts={min(len(parse_http_list(arg)), 5)}:{'quote' if chr(34) in arg else 'noquote'}:{'esc' if chr(92) in arg else 'noesc'}"
+    return fn
+
+
+def eval_leaf(ctx, cases):
+    answers = ctx.driver.batch('auth', [[leaf_op(c)] for c in cases])
+    for c, a in zip(cases, answers):
+        got = a[0]
+        if got == 'bad-op':
+            raise RuntimeError(f'driver rejected leaf op for {c!r}')
+        want = real_leaf(c['fn'], leaf_arg(c))
+        if c['fn'] == 'kv':
+            got = kv_canon(got)
+        ok = got == want
+        if not ok:
+            ctx.disagree(c, {'where': f"leaf.{c['fn']}", 'impl': want, 'model': got})
+        ctx.count('leaf_fn', c['fn'])
+        ctx.count('leaf_class', leaf_class(c, want))
+        ctx.case(c, nontrivial=bool(leaf_arg(c)), validated=ok)
+
+
+def rand_text(rng, alphabet, lo, hi):
+    return ''.join(rng.choice(alphabet) for _ in range(rng.randint(lo, hi)))
+
+
+def leaf_cases(ctx):
+    rng = ctx.rng
+    cases = []
+
+    def add(fn, arg):
+        if isinstance(arg, (bytes, bytearray)):
+            arg = hx(bytes(arg))
+        cases.append({'kind': 'leaf', 'fn': fn, 'arg': arg})
+
+    # --- base64 decoding: directed -----------------------------------------------------
+    for t in [b'', b'=', b'==', b'====', b'a', b'ab', b'ab=', b'ab==', b'ab===', b'abc', b'abc=', b'abc==', b'abcd',
+              b'abcd=', b'abcde', b'abcdef', b'abcdefg', b'abcdefgh', b'a=b=', b'ab=c', b'ab=c=', b'abc=d', b'ab=!=cd',
+              b'ab===x', b'a===', b'=abcd', b'=a=b=c=d', b'ab==cdef', b'ab=\n=', b'a\nb\nc\nd\n', b'YTpi\n', b'YTpi',
+              b'YT pi', b'Y-T_pi', b'ab=\xff=', b'\xff\xfe', b'a=', b'a==', b'a=bc', b'a=bcd', b'ab=cd=', b'ab=cd==',
+              b'abc=de==', b'ab\x00==', b'Zm9v', b'Zm9vYg==', b'Zm9vYmE=', b'Zm9vYmFy', b'Zm9vYg', b'Zm9vYmE', b'Zm9vY']:
+        add('a2b', t)
+    for b in range(256):
+        add('a2b', b'QUJD' + bytes([b]) + b'RA==')
+        add('a2b', bytes([b]) + b'Q==')
+    for _ in range(150 * ctx.scale):
+        k = rng.random()
+        if k < 0.4:
+            t = rand_text(rng, B64ALPHA * 3 + '====' + ' \n!-_*', 0, 24).encode()
+        elif k < 0.7:
+            good = base64.b64encode(bytes(rng.randrange(256) for _ in range(rng.randint(0, 12))))
+            cut = rng.randint(0, len(good))
+            t = good[:cut] + rng.choice([b'', b'=', b'==', b'\n', b'=x', b'A']) + (good[cut:] if rng.random() < 0.5 else b'')
+        else:
+            t = bytes(rng.choice([rng.randrange(256), ord('='), ord(rng.choice(B64ALPHA))]) for _ in range(rng.randint(0, 16)))
+        add('a2b', t)
+    # as the leaf sees it: text, utf-8 encoded first
+    for t in ['', 'YTpi', 'YTpié', 'éYTpi', 'YT pi', 'w7w6cMOk', 'YTpi=', 'YTp', '=', 'Y\U0001f600Q==']:
+        add('leafb64', t)
+    for _ in range(60 * ctx.scale):
+        add('leafb64', rand_text(rng, B64ALPHA * 2 + '== \né€', 0, 20))
+    # --- RFC 4648 encoder ---------------------------------------------------------------
+    for n in range(0, 8):
+        add('b64enc', bytes((i * 37 + n) % 256 for i in range(n)))
+    for t in [b'\x00', b'\xff', b'\xff\xff', b'\xff\xff\xff', b'\xfb\xef\xbe', b'\x00\x00\x00', b'\xfb\xf0', b'f', b'fo', b'foo', b'foob', b'fooba', b'foobar']:
+        add('b64enc', t)
+    for _ in range(60 * ctx.scale):
+        add('b64enc', bytes(rng.randrange(256) for _ in range(rng.randint(0, 30))))
+    # --- utf-8 decoding ----------------------------------------------------------------
+    firsts = [0x00, 0x7f, 0x80, 0xbf, 0xc0, 0xc1, 0xc2, 0xdf, 0xe0, 0xe1, 0xec, 0xed, 0xee, 0xef, 0xf0, 0xf1, 0xf3, 0xf4,
+              0xf5, 0xf7, 0xf8, 0xfe, 0xff]
+    conts = [0x00, 0x7f, 0x80, 0x8f, 0x90, 0x9f, 0xa0, 0xbf, 0xc0, 0xff]
+    for f in firsts:
+        add('utf8dec', bytes([f]))
+        for c1 in conts:
+            add('utf8dec', bytes([f, c1]))
+            for c2 in (0x7f, 0x80, 0xbf, 0xc0):
+                add('utf8dec', bytes([f, c1, c2]))
+                for c3 in (0x7f, 0x80, 0xbf, 0xc0):
+                    add('utf8dec', bytes([f, c1, c2, c3]))
+    for t in [b'', b'abc', 'pä€😀'.encode(), b'a\xc3', b'\xe2\x82', b'\xf0\x9f\x98', b'\xc3\xa9x\xff', b'\xef\xbf\xbf',
+              b'\xef\xbb\xbf', b'\xf4\x8f\xbf\xbf', b'\xf4\x90\x80\x80', b'\xed\x9f\xbf', b'\xed\xa0\x80', b'\xed\xbf\xbf',
+              b'\xee\x80\x80', b'\xe0\x9f\xbf', b'\xe0\xa0\x80', b'\xf0\x8f\xbf\xbf', b'\xf0\x90\x80\x80', b'\xc1\xbf', b'\xc2\x80']:
+        add('utf8dec', t)
+    pool = 'aZ09 :éÿĀ߿ࠀ€퟿￿\U00010000\U0001f600\U0010ffff'
+    for _ in range(120 * ctx.scale):
+        good = rand_text(rng, pool, 0, 8).encode('utf-8')
+        k = rng.random()
+        if k < 0.4:
+            t = good
+        elif k < 0.7 and good:
+            i = rng.randrange(len(good))
+            t = good[:i] + bytes([rng.choice([0x80, 0xbf, 0xc0, 0xff, good[i] ^ 0x40, good[i] ^ 0x80])]) + good[i + 1:]
+        elif k < 0.85:
+            t = good[:rng.randint(0, len(good))]
+        else:
+            t = bytes(rng.randrange(256) for _ in range(rng.randint(1, 6)))
+        add('utf8dec', t)
+    # --- utf-8 encoding ----------------------------------------------------------------
+    bounds = [0, 1, 0x7f, 0x80, 0x7ff, 0x800, 0xfff, 0x1000, 0xd7ff, 0xe000, 0xfffd, 0xffff, 0x10000, 0x3ffff, 0x40000, 0x10ffff]
+    for n in bounds:
+        add('utf8enc', [n])
+    add('utf8enc', bounds)
+    add('utf8enc', [])
+    for _ in range(60 * ctx.scale):
+        ns = []
+        for _i in range(rng.randint(0, 6)):
+            n = rng.choice([rng.randrange(0x80), rng.randrange(0x800), rng.randrange(0x10000), rng.randrange(0x110000)])
+            if 0xd800 <= n < 0xe000:
+                n -= 0x800
+            ns.append(n)
+        add('utf8enc', ns)
+    # --- str.strip ---------------------------------------------------------------------
+    near = [0x08, 0x0e, 0x1b, 0x21, 0x84, 0x86, 0x9f, 0xa1, 0x180e, 0x1fff, 0x200b, 0x2027, 0x202a, 0x2060, 0x2fff, 0x3001, 0xfeff]
+    for n in PY_SPACES + near:
+        add('strip', chr(n) + 'a' + chr(n))
+        add('strip', 'a' + chr(n) + 'b')
+    for t in ['', ' ', ' \t\n', 'a', ' a b ', '　 x ', 'x​ ', ' ​x']:
+        add('strip', t)
+    # --- parse_http_list / parse_keqv_list ---------------------------------------------
+    texts = ['', ',', ',,', ' ', ' , ', 'a', 'a=b', 'a=', '=b', '=', 'a="b"', 'a="b', 'a=b"', 'a="', 'a=""', 'a=" "', 'a="b",c=d',
+             'a="b,c", d=e', 'a="b\\"c"', 'a="b\\\\"', 'a="b\\', 'a=b\\,c', 'a="b\\,c"', 'a=b,a=c', 'a=b, c=d ,a=e', 'a = b', 'a= "b"',
+             'a="b" ', ' a="b"', 'a=b=c', 'a=="b"', 'a="b"c"', 'a="b" x,c=d', '"a"=b', '"a,b"=c', 'a="b", ', 'a="b",', ',a=b',
+             'a=b,,c=d', 'a= b ', ' a=b　', 'a="é,€"', 'a=\'b,c\'', 'a="b""c"', 'a=b"c,d"e',
+             'username="alice", realm="Test", nonce="n", uri="/", response="r"', 'a="b"\x1f', '\x1ca=b', 'k="v\\"', 'k="\\""']
+    for t in texts:
+        add('httplist', t)
+        add('kv', t)
+    hl_alpha = 'ab=,"\\ \t' * 3 + 'é  \'x='
+    for _ in range(300 * ctx.scale):
+        t = rand_text(rng, hl_alpha, 0, 16)
+        add('httplist', t)
+        add('kv', t)
+    for _ in range(150 * ctx.scale):
+        # near well-formed: items k=v / k="v" with a little noise
+        items = []
+        for _i in range(rng.randint(0, 4)):
+            k = rand_text(rng, 'abk', 0, 2)
+            v = rand_text(rng, 'xy ,"\\=', 0, 4)
+            items.append(rng.choice([f'{k}="{esc_q(v)}"', f'{k}={v}', f'{k}="{v}"', k]))
+        add('kv', rng.choice([', ', ',', ' , ']).join(items))
+    return cases
 
 
 # ---------------------------------------------------------------------------------------
@@ -1070,19 +1470,32 @@ def param_obligations(ctx):
     hexes = [uuidmod.uuid4().hex for _ in range(50)]
     ok = all(len(h) == 32 and all(ch in '0123456789abcdef' for ch in h) for h in hexes)
     ctx.param("uuid4().hex is 32 hex digits (no '/'): hypothesis of C20.session_binding", ok, hexes[0])
+    ans = ctx.driver.run('auth', [('spaces ' + ' '.join(map(str, PY_SPACES))).rstrip()])[0]
+    ctx.param('{n | chr(n).isspace()} over all 0x110000 code points == CV.Auth.isSpace (str.strip in parse_http_list)',
+              ans == 'ok', f'{len(PY_SPACES)} characters, driver: {ans}')
+    # str.lower() on the scheme is modelled on ASCII: no non-ASCII character may lower into letters of basic / digest only
+    bad = [n for n in range(128, 0x110000) if not (0xd800 <= n < 0xe000)
+           and all(ch in 'basicdgest' for ch in chr(n).lower())]
+    ctx.param("no non-ASCII character lower()s into letters of 'basic'/'digest' (schemeOf lowers ASCII only)", not bad,
+              f'offenders: {[hex(n) for n in bad[:5]]}')
     supported = (getattr(_httpauth, 'MD5', None), getattr(_httpauth, 'MD5_SESS', None), getattr(_httpauth, 'AUTH', None))
     ctx.param('algorithm / qop literals MD5, MD5-sess, auth', supported == ('MD5', 'MD5-sess', 'auth'), repr(supported))
 
 
 # ---------------------------------------------------------------------------------------
 
-EVAL = {'auth': eval_auth, 'authseq': eval_authseq, 'md5': eval_md5, 'session': eval_session, 'vhost': eval_vhost}
+EVAL = {'leaf': eval_leaf, 'auth': eval_auth, 'authseq': eval_authseq, 'md5': eval_md5, 'session': eval_session, 'vhost': eval_vhost}
 
 
 def run(ctx):
     ctx.rule = ('auth: fixed list of degenerate headers x 4 encrypt variants + systematic Digest grid (user known/unknown x '
                 'password right/wrong/None x qop x algorithm x realm, each field dropped in turn) + random headers from the '
-                'Basic/Digest grammar over random tables of 0-3 users; each case runs check_auth, basic_auth and digest_auth; '
+                'Basic/Digest grammar over random tables of 0-3 users + headers made by the Lean client models (Basic / RFC 2617 '
+                'Digest; names, realms, nonces with quotes, commas, backslashes, non-ASCII); each case runs check_auth, basic_auth '
+                'and digest_auth and is evaluated twice by the driver: with the leaf outcomes handed over, and under concreteLeaves '
+                '(header text only); leaf: directed streams + random inputs for a2b_base64 (every byte value in two positions, '
+                'padding in every position), the RFC 4648 encoder, utf-8 decode (23 lead bytes x 10 second bytes x 4 x 4) / encode, '
+                'str.strip (every space character and near misses), parse_http_list / parse_keqv_list; '
                 'authseq: 2-3 calls on ONE request object - all ordered pairs of 10 Basic / 8 Digest configurations (table x '
                 'realm x encrypt, incl. the same one twice) x 9 front-end pairs x 7 headers + fixed triples (same on every seed '
                 'and tier) + random variations of a random configuration; every call judged on its own; '
@@ -1091,12 +1504,17 @@ def run(ctx):
                 '+ random; non-trivial = a header / more than one request / an X-Forwarded-Host is present; distinct = distinct case')
     ctx.trusted += [
         'base64.decodebytes, parse_http_list/parse_keqv_list, urljoin: real stdlib outcomes are handed to the model (parameters of the theorems)',
+        'the same leaves inside the model (CV.Model.AuthLeaves, `concreteLeaves`): Lean definitions written from binascii.c / '
+        'urllib.request, compared with the real functions on every run (leaf cases, every header of the auth cases); the concrete '
+        'theorems (basic_concrete, digest_concrete, ...) are about these definitions - their equality with CPython is validated, not proved',
+        'CPython itself (binascii.a2b_base64, the utf-8 codec, str.strip, str.split) is not verified',
         'md5: theorems hold for every H; the driver instantiates H with CV.Md5, compared with hashlib.md5 on every run',
         'sha1 (session fingerprint): uninterpreted W; the recorded digest of the live call is handed to the model',
         'uuid4 replaced by a seeded double (module global circuits.web.sessions.uuid); ids are assumed unguessable/unique',
         'str.lower() on scheme and forwarded host modelled on ASCII (no non-ASCII character lowers into an ASCII letter of "basic"/"digest")',
         'SimpleCookie parsing: the model receives request.cookie[name].value as parsed by the real Request',
-        'Lean String.fromUTF8? == bytes.decode("utf-8") (validated on the generated invalid sequences)',
+        'Lean String.fromUTF8? == bytes.decode("utf-8") (validated on the generated invalid sequences); CV.Auth.utf8Decode likewise (utf8dec leaf cases)',
+        'header text is a Python str without lone surrogates (List Char); request headers arrive that way from the HTTP parser',
     ]
     ctx.assumptions += [
         'user tables are dicts (or callables yielding them) from str to str',
@@ -1105,7 +1523,7 @@ def run(ctx):
         'trusted_gateways=None means "no restriction" (documented default)',
     ]
     param_obligations(ctx)
-    groups = [('md5', md5_cases(ctx)), ('auth', auth_cases(ctx)), ('authseq', authseq_cases(ctx)),
+    groups = [('md5', md5_cases(ctx)), ('leaf', leaf_cases(ctx)), ('auth', auth_cases(ctx) + client_cases(ctx)), ('authseq', authseq_cases(ctx)),
               ('session', session_cases(ctx)), ('vhost', vhost_cases(ctx))]
     corpus = ctx.corpus()
     for c in corpus:
